@@ -128,7 +128,7 @@ func itoa(n int) string {
 
 func genC08(t *rapid.T) streamCase {
 	wn := c07Workflow()
-	targets := []string{"passcount", "uniformity", "two-items", "random", "random", "allpass", "allpass", "one-bad", "one-bad", "mixed", "mixed"}
+	targets := []string{"passcount", "uniformity", "two-items", "random", "random", "allpass", "allpass", "one-bad", "one-bad", "mixed", "mixed", "half"}
 	if v := os.Getenv("VERIF_TARGETS"); v != "" {
 		targets = strings.Split(v, ",")
 	}
